@@ -73,7 +73,11 @@ DecFrames(d, mode, frames, i, acc) ==
            size == IF f.kind = "c" THEN 2 ELSE 0
            r == DecFrame(d, mode, size, f.red, f.c2s)
        IN DecFrames(r.D, mode, frames, i + 1, Append(acc, [tr |-> r.tr, red |-> r.red, plc |-> r.plc,
-                                                          dreset |-> ~r.plc /\ DecCeltReset(d, mode)]))
+                                                          dreset |-> ~r.plc /\ DecCeltReset(d, mode),
+                                                          \* the decoder sees the layer change at this frame ...
+                                                          sw |-> ~r.plc /\ d.prev > 0 /\ ((mode = MODE_CELT) # (d.prev = MODE_CELT)),
+                                                          \* ... after SILK -> CELT redundancy in the frame before
+                                                          bridgedBefore |-> d.pred /\ mode = MODE_CELT]))
 
 \* the choices that cannot matter are fixed (forced channels: sc; forced layer / short frame: wc; CELT-only: sw;
 \* drops: only frames that can carry a redundant frame)
@@ -148,7 +152,7 @@ StepTheorems(e, Mn, Dn) ==
        /\ (e.pk.mode = MODE_HYBRID => e.pk.fq \in {4, 8})
        /\ (e.pk.mode = MODE_SILK => e.pk.fq \in {4, 8, 16, 24})
        /\ (e.pk.mode = MODE_CELT => e.pk.fq \in {1, 2, 4, 8})
-       /\ e.pk.bw <= NyquistBw(gc[1])
+       /\ e.pk.bw <= BwCap(e.pk.mode, NyquistBw(gc[1]))                \* (at 12 kHz the MDCT layer codes the medium-band limit as wideband)
        \* forced mode: CELT is honoured at the latest one call later, SILK/hybrid at once (10 ms and longer)
        /\ (e.fm = MODE_CELT => (e.pk.mode = MODE_CELT \/ (fs[nf].kind # "s" => Mn.prevMode = MODE_CELT)))
        /\ (e.fm \in {MODE_SILK, MODE_HYBRID} /\ e.q >= 4 /\ e.app # APP_LOWDELAY
@@ -175,6 +179,9 @@ StepTheorems(e, Mn, Dn) ==
             <<fs[i].red /\ size > 1, fs[i].c2s /\ size > 1>> \in EncHandshake(e.pre, Mn, e.pk.mode, i, nf, size)
        \* the decoder never conceals-and-crossfades when a redundant frame bridges the switch
        /\ \A i \in 1..nf : e.dec[i].tr => ~e.dec[i].red
+       \* no CELT <-> SILK/hybrid switch reaches the decoder bare: a redundant frame in this frame, one at the end of the
+       \* frame before, or the decoder's own reset path (concealment cross-fade + MDCT reset)
+       /\ \A i \in 1..nf : e.dec[i].sw => (e.dec[i].red \/ e.dec[i].bridgedBefore \/ e.dec[i].tr)
        \* lock-step of "which layer coded the previous frame": as long as nothing was dropped (no DTX frame, no
        \* redundant frame refused for lack of room, no TOC-only packet, no encoder reset), encoder and decoder agree,
        \* hence they discard their MDCT state at the same frames
